@@ -211,9 +211,14 @@ def contradicts_invariants(facts, ts):
     pp = ("pre", "self." + list(ts.len_fields)[0])
     curs = {("pre", "self." + c) for c in ts.cursors}
     cnts = {("pre", "self." + n) for n, (pf, bd) in ts.counters.items() if bd == "P"}
+    lock = None
+    if getattr(ts, "lockstep", None):
+        lock = (("pre", "self." + ts.lockstep[0]), ("pre", "self." + ts.lockstep[1]))
     for a, v in facts.items():
         if not isinstance(a, tuple):
             continue
+        if lock and ((a[0] == "<=" and a[1] == lock[0] and a[2] == lock[1] and v is False) or (a[0] == "<" and a[1] == lock[1] and a[2] == lock[0] and v is True)):
+            return "cursor <= counter (lockstep: while warming up they are equal, afterwards the counter is the period)"
         if a[0] == "==" and a[1] == a[2] == pp and v is False:
             return "len(buffer) == period cannot be false"
         if a[0] == "<" and a[1] in curs and a[2] == pp and v is False:
@@ -227,6 +232,14 @@ def contradicts_invariants(facts, ts):
     return None
 
 
+def _bare_env():
+    """nothing assumed: every unknown is any f64 including NaN, and a failed comparison teaches nothing about a NaN-able operand"""
+    import signs
+    e = signs.Env({}, {})
+    e.nan_aware = True
+    return e
+
+
 def locally_false(facts):
     """a branch fact `x < k` / `k < x` (k a constant) that the sign analysis of the expression x itself refutes, with nothing assumed
     about inputs or state (every unknown is "any f64, maybe NaN"): |e| < 0.0, max(|a|, ..) < 0.0, ...  A NaN operand makes the
@@ -238,16 +251,111 @@ def locally_false(facts):
         x, k = a[1], a[2]
         try:
             if is_const(k) and not is_const(x) and k[1] == "f64":
-                iv = signs.evaluate(x, signs.Env({}, {}))
+                iv = signs.evaluate(x, _bare_env())
                 if iv.lo > k[2] or (iv.lo == k[2] and (a[0] == "<" or iv.lo_open)):
                     return "the value compared is never %s %s" % ("below" if a[0] == "<" else "at or below", k[2])
             if is_const(x) and not is_const(k) and x[1] == "f64":
-                iv = signs.evaluate(k, signs.Env({}, {}))
+                iv = signs.evaluate(k, _bare_env())
                 if iv.hi < x[2] or (iv.hi == x[2] and (a[0] == "<" or iv.hi_open)):
                     return "the value compared is never %s %s" % ("above" if a[0] == "<" else "at or above", x[2])
         except Exception:
             continue
     return None
+
+
+def difference_refutes(facts, cond, ts):
+    """Is the branch condition `cond` (together with the dominating `facts`) unsatisfiable over the unsigned integers, given the
+    typestate invariants (0 <= cursor < period, counter <= period, period >= 1, lockstep cursor <= counter)?  Decided for
+    conjunctions of difference constraints  v + a (<|<=) w + b  by a negative-cycle test (Bellman-Ford); conditionals inside the
+    condition are split into their outcomes and every outcome must be refuted.  Anything else: not decided (None)."""
+    from norm import Normalizer, assignments, cond_atoms, resolve, EQ_KEY
+    if not ts.len_fields:
+        return None
+    pp = ("pre", "self." + list(ts.len_fields)[0])
+
+    def lin(t):
+        if is_const(t) and t[1] == "int":
+            return ("Z", int(t[2]))
+        if isinstance(t, tuple) and t and t[0] == "pre":
+            return (t, 0)
+        if isinstance(t, tuple) and len(t) == 3 and t[0] in ("+", "-") and is_const(t[2]) and t[2][1] == "int":
+            l = lin(t[1])
+            if l is None:
+                return None
+            return (l[0], l[1] + (int(t[2][2]) if t[0] == "+" else -int(t[2][2])))
+        return None
+
+    def edges_of(fs):
+        E = []   # (x, y, c): x - y <= c
+
+        def le(a, b, strict):
+            la, lb = lin(a), lin(b)
+            if la is None or lb is None:
+                return False
+            E.append((la[0], lb[0], lb[1] - la[1] - (1 if strict else 0)))
+            return True
+        for a, v in fs.items():
+            if not (isinstance(a, tuple) and len(a) == 3 and a[0] in ("<", "<=", "==")):
+                continue
+            if a[0] == "==":
+                if v:
+                    le(a[1], a[2], False) and le(a[2], a[1], False)
+                continue
+            if v:
+                le(a[1], a[2], a[0] == "<")
+            else:
+                le(a[2], a[1], a[0] == "<=")
+        return E
+
+    def refuted(fs):
+        E = edges_of(fs)
+        vs = {"Z", pp}
+        for x, y, c in E:
+            vs.add(x)
+            vs.add(y)
+        for v in list(vs):
+            if v != "Z":
+                E.append(("Z", v, 0))          # unsigned: v >= 0
+        E.append(("Z", pp, -1))                # period >= 1
+        for c_ in ts.cursors:
+            E.append((("pre", "self." + c_), pp, -1))
+        for n_, (pf_, bd_) in ts.counters.items():
+            E.append((("pre", "self." + n_), pp, 0 if bd_ == "P" else 1))
+        if getattr(ts, "lockstep", None):
+            E.append((("pre", "self." + ts.lockstep[0]), ("pre", "self." + ts.lockstep[1]), 0))
+        for x, y, c in E:
+            vs.add(x)
+            vs.add(y)
+        dist = {v: 0 for v in vs}
+        for _ in range(len(vs) + 1):
+            changed = False
+            for x, y, c in E:            # x <= y + c
+                if dist[y] + c < dist[x]:
+                    dist[x] = dist[y] + c
+                    changed = True
+            if not changed:
+                return False
+        return True                      # still relaxing after |V| rounds: a negative cycle, the constraints are contradictory
+    N = Normalizer()
+    atoms = cond_atoms(cond) if isinstance(cond, tuple) else []
+    n = 0
+    for asg in (assignments(atoms, N) if atoms else [{}]):
+        n += 1
+        if n > 64:
+            return None
+        asg.pop(EQ_KEY, None)
+        c2 = resolve(cond, asg) if atoms else cond
+        if not isinstance(c2, tuple) or cond_atoms(c2):
+            return None
+        a, pol = lit(c2)
+        if not (isinstance(a, tuple) and len(a) == 3 and a[0] in ("<", "<=", "==")):
+            return None
+        fs = dict(facts)
+        fs.update(asg)
+        fs[a] = pol
+        if not refuted(fs):
+            return None
+    return "the branch contradicts the ring invariants (difference constraints over cursor, counter and period)"
 
 
 def infeasible_panic(f, blk, sites):
@@ -284,6 +392,11 @@ def infeasible_panic(f, blk, sites):
         why = contradicts_invariants(facts, ts_)
         if why is None:
             why = locally_false(facts)
+        if why is None:
+            try:
+                why = difference_refutes(dict(s_["facts"]), c, ts_)
+            except Exception:
+                why = None
         if why is None:
             return None
         reasons.add(why)
@@ -345,20 +458,13 @@ def apply(F, S, extra=None):
         evaluated_fns.append(f)
         for site in ex.sites:
             if site["what"] == "diverge-edge":
-                g_ = F.fn_by_path.get(site["path"])
-                ts_ = tss.get(g_.self_struct) if g_ is not None and g_.self_struct else None
-                diverge.setdefault(site["path"], []).append((site, ts_ or ts or typestate.StructTS("?")))
+                diverge.setdefault(site["path"], []).append((site, ts or typestate.StructTS("?")))
                 continue
             if site["what"] not in ("assert", "slice-index"):
                 continue  # f64 division / sqrt never panic (C08/C09 look at them)
-            if site["path"] != f.path:
-                # site inside an inlined helper: attribute to that helper's struct
-                g = F.fn_by_path.get(site["path"])
-                ts_site = tss.get(g.self_struct) if g is not None else None
-                if ts_site is None and g is not None and (g.path in F.helpers() or g.kind == "Closure"):
-                    ts_site = ts  # free helper / closure inlined into a method: its operands are the caller's state
-            else:
-                ts_site = ts
+            # the operand terms of a site are written over the state of the function being evaluated (`pre(self.x)` of ITS struct),
+            # wherever the site's code lives: an associated helper of another type inlined here is judged by the caller's typestate
+            ts_site = ts
             key = (site["path"], site["block"], site["what"], site["kind"], site["span"]["line"], site["span"]["col"])
             inst = "%s %s %s @%s" % (site["fn"], site["what"], site["kind"], site["span"]["line"])
             if ts_site is None:
@@ -451,6 +557,28 @@ def apply(F, S, extra=None):
                     S.ok("P2", "%s bb%s" % (inst, bid), discharged_by=why)
                     continue
             S.bad("P2", "panicking-callee", "%s->%s" % (f.label, callees.strip_turbofish(name)), "%s calls %s (%s/%s): it can panic or is unclassified, and no rule discharges it" % (f.label, name, cls, fam), loc(t["span"]))
+    # P7: stack frames.  A by-value local array of a size fixed in the source lives in the frame of every call; a few kilobytes are
+    # plain data, megabytes abort the process (stack overflow is not an unwinding panic, and certainly not a normal return)
+    def arr_elems(ty_):
+        if not isinstance(ty_, dict):
+            return 0
+        if ty_.get("k") == "array":
+            try:
+                n_ = int(ty_.get("len"))
+            except (TypeError, ValueError):
+                return 10 ** 9   # a length that is not a literal (const generic / expression): unknown, treated as huge
+            return n_ * max(1, arr_elems(ty_.get("elem")))
+        if ty_.get("k") == "tuple":
+            return sum(arr_elems(x_) for x_ in (ty_.get("elems") or []))
+        return 0 if ty_.get("k") in ("ref", "rawptr") else max([arr_elems(x_) for x_ in (ty_.get("args") or [])] + [0]) if ty_.get("k") == "adt" and "Box" not in str(ty_.get("path")) and "Vec" not in str(ty_.get("path")) else 0
+    for f in F.fns:
+        if f.derived:
+            continue
+        worst = max([arr_elems(l_["ty"]) for l_ in f.locals] + [0])
+        if worst > 4096:
+            S.bad("P7", "huge-frame", f.label, "%s keeps an array of %d elements in its stack frame: a call overflows the stack instead of returning" % (f.label, worst), loc(f.span))
+        else:
+            S.ok("P7", f.label, largest_local_array=worst)
     # P5: core::fmt panics ("Formatting argument out of range") when a run-time width / precision exceeds u16::MAX; the fmt
     # machinery is otherwise waved through as non-panicking, so run-time counts are not accepted anywhere in the crate
     for x in F.ast.get("fmt", []):
@@ -536,6 +664,7 @@ def run(tier, repo=None, tag="repo"):
     rep.rule("P3", "every loop is driven by Iterator::next of a Range / slice iterator (terminates)", 0)
     rep.rule("P4", "no recursion", 1)
     rep.rule("P6", "every basic block of every hand-written non-constructor function and closure is executed by some evaluation", 140)
+    rep.rule("P7", "no hand-written function keeps an array of more than 4096 elements in its stack frame", 150)
     rep.rule("P5", "no format string takes a width / precision from a run-time value (core::fmt panics above u16::MAX)", 20)
     configs = ["default", "serde"] + (["release"] if tier == "thorough" else [])
     from extract import ExtractError
